@@ -18,34 +18,44 @@ def fr(x):
     return from_rat(x)
 
 
-def build_panel(pd, explicit_model=True):
-    """pd in JSON shape (rationals as limb pairs) -> compmech Panel"""
+def build_panel(pd, explicit_model=True, ctor=False):
+    """pd in JSON shape (rationals as limb pairs) -> compmech Panel; ctor=True passes everything through the
+    constructor (keyword arguments) instead of setting attributes afterwards"""
     from compmech.panel import Panel
-    p = Panel()
+    kw = {}
     if explicit_model or pd["model"] == "plate_w":
-        p.model = MODELS[pd["model"]]
-    p.a, p.b = float(fr(pd["a"])), float(fr(pd["b"]))
+        kw["model"] = MODELS[pd["model"]]
+    kw["a"], kw["b"] = float(fr(pd["a"])), float(fr(pd["b"]))
     if pd["model"] in ("cpanel", "kpanel"):
-        p.r = float(fr(pd["r"]))
+        kw["r"] = float(fr(pd["r"]))
     if pd["model"] == "kpanel":
-        p.alphadeg = math.degrees(math.atan2(fr(pd["sina"]), fr(pd["cosa"])))
-    p.m, p.n = pd["m"], pd["n"]
+        kw["alphadeg"] = math.degrees(math.atan2(fr(pd["sina"]), fr(pd["cosa"])))
+    kw["m"], kw["n"] = pd["m"], pd["n"]
     for d in range(3):
         for ax, axn in ((0, "x"), (1, "y")):
             f = pd["fl"][d][ax]
             for k, nm in enumerate(("1t", "1r", "2t", "2r")):
-                setattr(p, "%s%s%s" % (DOFS[d], nm, axn), float(fr(f[k])))
-    p.stack = [c01.angle(pl["dir"]) for pl in pd["stack"]]
-    p.plyts = [float(fr(pl["t"])) for pl in pd["stack"]]
-    p.laminaprops = [tuple(float(fr(x)) for x in pl["mat"]) for pl in pd["stack"]]
-    p.offset = float(fr(pd["off"]))
+                kw["%s%s%s" % (DOFS[d], nm, axn)] = float(fr(f[k]))
+    kw["stack"] = [c01.angle(pl["dir"]) for pl in pd["stack"]]
+    plyts = [float(fr(pl["t"])) for pl in pd["stack"]]
+    props = [tuple(float(fr(x)) for x in pl["mat"]) for pl in pd["stack"]]
+    if ctor and all(t == plyts[0] for t in plyts) and all(q == props[0] for q in props):
+        kw["plyt"], kw["laminaprop"] = plyts[0], props[0]           # the uniform argument form
+    else:
+        kw["plyts"], kw["laminaprops"] = plyts, props
+    kw["offset"] = float(fr(pd["off"]))
     y1, y2, b = fr(pd["y1"]), fr(pd["y2"]), fr(pd["b"])
     if not (y1 == 0 and y2 == b):
-        p.y1, p.y2 = float(y1), float(y2)
-    p.mu = float(fr(pd["mu"]))
+        kw["y1"], kw["y2"] = float(y1), float(y2)
+    kw["mu"] = float(fr(pd["mu"]))
     N = [fr(x) for x in pd["Ncte"]]
     if any(N):
-        p.Nxx_cte, p.Nyy_cte, p.Nxy_cte = (float(x) for x in N)
+        kw["Nxx_cte"], kw["Nyy_cte"], kw["Nxy_cte"] = (float(x) for x in N)
+    if ctor:
+        return Panel(**kw)
+    p = Panel()
+    for k, v in kw.items():
+        setattr(p, k, v)
     return p
 
 
@@ -92,11 +102,17 @@ def observe_bay_aero(pd, req):
     return [[dyadic(v) for v in row] for row in A], ok
 
 
+def _fin(M):
+    """the assembling route: kernels' upper triangle symmetrised by the package's own finalize_symmetric_matrix"""
+    from compmech.sparse import finalize_symmetric_matrix
+    return finalize_symmetric_matrix(M)
+
+
 def observe(pd, req, fresh_model=True):
     if req.get("via") == "bay":
         return observe_bay_aero(pd, req)
     """run the request on a freshly defined real Panel; returns (dense matrix as dyadics, flags_ok)"""
-    p = build_panel(pd, explicit_model=fresh_model)
+    p = build_panel(pd, explicit_model=fresh_model, ctor=bool(req.get("ctor")))
     kw = {}
     if req.get("size", 0):
         kw = dict(size=req["size"], row0=req["row0"], col0=req["col0"])
@@ -106,10 +122,10 @@ def observe(pd, req, fresh_model=True):
         n = (1 if pd["model"] == "plate_w" else 3) * pd["m"] * pd["n"]
         M = p.calc_k0(silent=True, c=np.zeros(n), nx=req["num"][0], ny=req["num"][1], NLgeom=False, **kw)
     elif q == "k0":
-        M = p.calc_k0(silent=True, **kw)
+        M = p.calc_k0(silent=True, **kw) if not req.get("nofin") else _fin(p.calc_k0(silent=True, finalize=False, **kw))
     elif q == "kG0":
         p.Nxx, p.Nyy, p.Nxy = (float(fr(x)) for x in req["N"])
-        M = p.calc_kG0(silent=True, **kw)
+        M = p.calc_kG0(silent=True, **kw) if not req.get("nofin") else _fin(p.calc_kG0(silent=True, finalize=False, **kw))
     elif q in ("fint", "kT", "kGc"):
         return observe_nl(p, pd, req, kw)
     elif q in ("uvw", "strain", "stress"):
@@ -119,7 +135,7 @@ def observe(pd, req, fresh_model=True):
     else:
         p.calc_k0(silent=True)          # the documented order: the laminate is derived by calc_k0
         if q == "kM":
-            M = p.calc_kM(silent=True, **kw)
+            M = p.calc_kM(silent=True, **kw) if not req.get("nofin") else _fin(p.calc_kM(silent=True, finalize=False, **kw))
         elif q == "kA":
             p.flow = req["flow"]
             p.beta, p.gamma = float(fr(req["beta"])), float(fr(req["gamma"]))
@@ -307,7 +323,7 @@ def observe_load(p, pd, req, kw):
 def jreq(r):
     out = dict(q=r["q"], size=r.get("size", 0), row0=r.get("row0", 0), col0=r.get("col0", 0))
     for k in ("N", "flow", "beta", "gamma", "aeromu", "c", "pts", "NL", "forces", "forcesInc", "inc", "cores", "num", "extra", "table",
-              "mach", "root", "rho", "V", "ainf", "via", "k0first", "taper", "route"):
+              "mach", "root", "rho", "V", "ainf", "via", "k0first", "taper", "route", "ctor", "nofin"):
         if k in r:
             out[k] = r[k]
     return out
@@ -374,6 +390,10 @@ def c01_dy(rng, lo, hi, bits):
 def random_req(rng, pd, q):
     size = 3 * pd["m"] * pd["n"] if pd["model"] != "plate_w" else pd["m"] * pd["n"]
     r = dict(q=q, size=0, row0=0, col0=0)
+    if rng.random() < 0.4:
+        r["ctor"] = True
+    if q in ("k0", "kG0", "kM") and rng.random() < 0.25:
+        r["nofin"] = True
     if q in ("k0", "kG0", "kM") and rng.random() < 0.3:
         off = rng.randint(1, 9)
         r.update(size=size + off + rng.randint(0, 7), row0=off, col0=off)
@@ -509,6 +529,11 @@ def run_prop(prop, qs, tier, seed, build, nrand_quick=40, nrand_thorough=600, wh
         rnd.append((pd, r))
     for k, (pd, r) in enumerate(pairs + rnd):
         r = jreq(r)
+        if k < len(pairs):
+            if k % 3 == 1:
+                r["ctor"] = True
+            if k % 4 == 2 and r["q"] in ("k0", "kG0", "kM"):
+                r["nofin"] = True
         try:
             obs, ok = observe(pd, r, fresh_model=(k % 3 != 0))
         except Exception as ex:
